@@ -2,9 +2,10 @@
 //! output formats of the finality / parent-ready trackers and the pool, world generators and the
 //! naive reference semantics ("spec") used by the oracles.
 //!
-//! Block hash ids: id 0 is `GENESIS_BLOCK_HASH`; id k > 0 is the 32-byte string whose first 8 bytes
-//! are k big-endian, so the `Ord` of real hashes equals the order of the ids (the code sorts ready
-//! parents by `(slot, hash)` in `wait_for_parent_ready`).
+//! Block hash ids: id 0 is `GENESIS_BLOCK_HASH`; id k > 0 is `ag_harness::advhash::block_hash(k)`: the ids
+//! 4g+1..4g+4 share all bytes but one (early or late, depending on g), and the `Ord` of real hashes equals
+//! the order of the ids (the code sorts ready parents by `(slot, hash)` in `wait_for_parent_ready`).
+//! The generators allocate the competing blocks of one slot inside one group.
 #![allow(dead_code)]
 use std::collections::{BTreeMap, BTreeSet};
 
@@ -17,18 +18,11 @@ use alpenglow::BlockId;
 pub type B = (u64, u64);
 
 pub fn hash(id: u64) -> BlockHash {
-    if id == 0 {
-        return GENESIS_BLOCK_HASH;
-    }
-    let mut b = [0u8; 32];
-    b[..8].copy_from_slice(&id.to_be_bytes());
-    let h: alpenglow::crypto::Hash = wincode::deserialize(&b).expect("32 bytes are a Hash");
-    h.into()
+    advhash::block_hash(id)
 }
 
 pub fn hid(h: &BlockHash) -> u64 {
-    let b = wincode::serialize(h).expect("hash serialises");
-    u64::from_be_bytes(b[..8].try_into().unwrap())
+    advhash::block_id(h).expect("interned block hash")
 }
 
 pub fn bid(b: B) -> BlockId {
